@@ -55,14 +55,22 @@ impl<I: SelectSyscall> SelectSyscall for NioSelectSyscall<I> {
         errorfds: *mut fd_set,
         timeout: *mut timeval,
     ) -> c_int {
+        // `t` is the timeout left in milliseconds, `c_uint::MAX` means no timeout
         let mut t = if timeout.is_null() {
             c_uint::MAX
         } else {
-            unsafe {
-                c_uint::try_from((*timeout).tv_sec).expect("overflow")
-                    .saturating_mul(1_000_000)
-                    .saturating_add(c_uint::try_from((*timeout).tv_usec).expect("overflow"))
+            let tv = unsafe { *timeout };
+            if tv.tv_sec < 0 || tv.tv_usec < 0 {
+                // like the native call
+                crate::syscall::set_errno(libc::EINVAL);
+                return -1;
             }
+            // rounded up, so that the call never returns before the requested timeout
+            let ms = u64::try_from(tv.tv_sec)
+                .expect("overflow")
+                .saturating_mul(1_000)
+                .saturating_add(u64::try_from(tv.tv_usec).expect("overflow").div_ceil(1_000));
+            c_uint::try_from(ms).unwrap_or(c_uint::MAX - 1).min(c_uint::MAX - 1)
         };
         let mut o = timeval {
             tv_sec: 0,
